@@ -10,7 +10,8 @@ import common  # noqa: E402
 
 NAME = "U4"
 RLIMIT = 30
-FNS = ["send_packet", "handle_keep_alive", "apply_encryption", "receive_packet", "keep_alive"]
+FNS = ["send_packet", "handle_keep_alive", "apply_encryption", "receive_packet", "keep_alive",
+       "new", "with_max_packet_length", "with_auth_cookie_expiry", "with_auth_secret", "with_client_address"]
 
 
 def build(vacuity=False):
